@@ -555,3 +555,273 @@ def nttp_source(rng, cxx20=False, nkinds=None, with_float=False):
         if isinstance(i, str):
             emit(i)
     return "\n".join(lines) + "\n", linemap
+
+
+# ---------------------------------------------------------------------------------------------
+# mostly-valid structured generation from the Itanium grammar (for the differential run)
+BUILTIN_CODES = "vwbcahstijlmxynofdegz"
+D_CODES = ["Dd", "De", "Df", "Dh", "Di", "Ds", "Da", "Dc", "Dn"]
+UNARY = ["ps", "ng", "ad", "de", "pp_", "mm_", "pp", "mm", "dl", "da", "te", "sz", "az", "nx", "sp", "tw", "nt"]
+BINARY = ["li", "pl", "mi", "ml", "rm", "an", "or", "eo", "aS", "pL", "mI", "mL", "rM", "aN", "oR", "eO", "ls", "rs", "lS",
+          "rS", "eq", "ne", "lt", "gt", "le", "ge", "aa", "oo", "pm", "pt", "ix", "dv", "dV", "cm", "co"]
+OPNAMES = ["nw", "na", "dl", "da", "ps", "ng", "ad", "de", "co", "pl", "mi", "ml", "dv", "rm", "an", "or", "eo", "aS",
+           "pL", "mI", "mL", "dV", "rM", "aN", "oR", "eO", "ls", "rs", "lS", "rS", "eq", "ne", "lt", "gt", "le", "ge",
+           "nt", "aa", "oo", "pp", "mm", "cm", "pm", "pt", "cl", "ix", "qu"]
+IDENTS = ["a", "foo", "K", "ns", "std_", "_M_x", "Bar9", "operator_", "h0123456789abcdef", "T", "x" * 11, "$_0",
+          "_GLOBAL__N_1", "cxx11", "get", "value", "type"]
+
+
+class Grammar:
+    """random derivations of <mangled-name>; `depth` bounds the recursion"""
+
+    def __init__(self, rng):
+        self.r = rng
+
+    def pick(self, xs):
+        return self.r.choice(xs)
+
+    def src(self):
+        i = self.pick(IDENTS)
+        return "%d%s" % (len(i), i)
+
+    def number(self):
+        r = self.r.random()
+        if r < 0.5:
+            return str(self.r.randrange(0, 10))
+        if r < 0.8:
+            return str(self.r.randrange(10, 5000))
+        if r < 0.9:
+            return "n" + str(self.r.randrange(1, 300))
+        return self.pick(["0", "012", "0x1f", "2147483647", "4294967296", "99999999999999999999"])
+
+    def seq(self):
+        return self.pick(["", "", "0", "1", "2", "A", "Z", "10"])
+
+    def subst(self):
+        r = self.r.random()
+        if r < 0.45:
+            return "S" + self.seq() + "_"
+        return "S" + self.pick("tabsiod")
+
+    def tparam(self):
+        return "T" + self.pick(["", "", "0", "1", "12"]) + "_"
+
+    def abi(self):
+        return "B" + self.src() if self.r.random() < 0.08 else ""
+
+    def builtin(self):
+        return self.pick(BUILTIN_CODES) if self.r.random() < 0.85 else self.pick(D_CODES)
+
+    def type(self, d):
+        r = self.r.random()
+        if d <= 0 or r < 0.35:
+            return self.builtin()
+        if r < 0.50:
+            return self.pick(["P", "R", "O", "K", "V", "PK", "RK", "r", "C", "G"]) + self.type(d - 1)
+        if r < 0.62:
+            return self.name(d - 1, in_type=True)
+        if r < 0.68:
+            return self.subst() + (self.targs(d - 1) if self.r.random() < 0.3 else "")
+        if r < 0.73:
+            return self.tparam() + (self.targs(d - 1) if self.r.random() < 0.15 else "")
+        if r < 0.78:
+            return "F" + self.pick(["", "Y"]) + self.type(d - 1) + "".join(self.type(d - 1) for _ in range(self.r.randrange(1, 3))) \
+                + self.pick(["", "", "R", "O"]) + "E"
+        if r < 0.82:
+            return "A" + self.pick([self.number(), "", "X"[:0] + self.expr(d - 1)]) + "_" + self.type(d - 1)
+        if r < 0.85:
+            return "M" + self.type(d - 1) + self.type(d - 1)
+        if r < 0.88:
+            return "Dp" + self.type(d - 1)
+        if r < 0.91:
+            return self.pick(["DT", "Dt"]) + self.expr(d - 1) + "E"
+        if r < 0.93:
+            return "Dv" + self.pick([self.number() + "_", "_" + self.expr(d - 1) + "_"]) + self.builtin()
+        if r < 0.95:
+            return "u" + self.src()
+        if r < 0.97:
+            return "U" + self.src() + (self.targs(d - 1) if self.r.random() < 0.3 else "") + self.type(d - 1)
+        if r < 0.985:
+            return "T" + self.pick("sue") + self.name(d - 1, in_type=True)
+        return "St" + self.src()
+
+    def primary(self, d):
+        r = self.r.random()
+        if r < 0.3 and d > 0:
+            return "L_Z" + self.encoding(d - 1, top=False) + "E"
+        if r < 0.8:
+            return "L" + self.builtin() + self.number() + "E"
+        if r < 0.9:
+            return "L" + self.type(d - 1) + self.number() + "E"
+        return self.pick(["LDnE", "LDn0E", "Lb1E", "Lb0E", "Li0_1E", "LPi0E"])
+
+    def expr(self, d):
+        r = self.r.random()
+        if d <= 0 or r < 0.3:
+            return self.pick([self.primary(d), self.tparam(), "fp_", "fp0_", "fL0p_", "fpK_", "fL1p0_"])
+        if r < 0.42:
+            return self.pick(UNARY) + self.expr(d - 1)
+        if r < 0.56:
+            return self.pick(BINARY) + self.expr(d - 1) + self.expr(d - 1)
+        if r < 0.60:
+            return "qu" + self.expr(d - 1) + self.expr(d - 1) + self.expr(d - 1)
+        if r < 0.66:
+            return "cl" + "".join(self.expr(d - 1) for _ in range(self.r.randrange(1, 4))) + "E"
+        if r < 0.70:
+            return "cv" + self.type(d - 1) + self.pick([self.expr(d - 1), "_" + "".join(self.expr(d - 1) for _ in range(self.r.randrange(0, 3))) + "E"])
+        if r < 0.73:
+            return self.pick(["tl", "il"]) + (self.type(d - 1) if self.r.random() < 0.5 else "") + self.expr(d - 1) + "E"
+        if r < 0.77:
+            return self.pick(["dc", "sc", "cc", "rc"]) + self.type(d - 1) + self.expr(d - 1)
+        if r < 0.81:
+            return self.pick(["ti", "st", "at"]) + self.type(d - 1)
+        if r < 0.85:
+            return self.pick(["dt", "pt"]) + self.expr(d - 1) + self.unresolved(d - 1)
+        if r < 0.87:
+            return "ds" + self.expr(d - 1) + self.expr(d - 1)
+        if r < 0.90:
+            return "sZ" + self.pick([self.tparam(), "fp_"])
+        if r < 0.92:
+            return "sP" + "".join(self.targ(d - 1) for _ in range(self.r.randrange(0, 3))) + "E"
+        if r < 0.93:
+            return "tr"
+        if r < 0.95:
+            return "gs" + self.expr(d - 1)
+        if r < 0.97:
+            return self.pick(["nw", "na"]) + "_" + self.type(d - 1) + self.pick(["E", "pi" + self.expr(d - 1) + "E"])
+        return self.unresolved(d - 1)
+
+    def unresolved(self, d):
+        r = self.r.random()
+        base = self.pick([self.src(), self.src() + (self.targs(d - 1) if d > 0 else ""), "on" + self.pick(OPNAMES),
+                          "dn" + self.src(), "dn" + self.pick([self.tparam(), self.subst(), "DT" + self.tparam() + "E"])])
+        if self.r.random() < 0.15:
+            base = "gs" + base
+        if r < 0.4:
+            return base
+        if r < 0.7:
+            return "sr" + self.pick([self.tparam(), self.subst(), "DT" + self.expr(d - 1) + "E"]) + base
+        if r < 0.85:
+            return "srN" + self.type(d - 1) + self.src() + "E" + base
+        return "sr" + self.src() + self.src() + "E" + base
+
+    def targ(self, d):
+        r = self.r.random()
+        if r < 0.45 or d <= 0:
+            return self.type(d)
+        if r < 0.75:
+            return self.primary(d)
+        if r < 0.92:
+            return "X" + self.expr(d - 1) + "E"
+        return "J" + "".join(self.targ(d - 1) for _ in range(self.r.randrange(0, 3))) + "E"
+
+    def targs(self, d):
+        return "I" + "".join(self.targ(d) for _ in range(self.r.randrange(1, 4))) + "E"
+
+    def leaf(self, d):
+        """last component of a nested name"""
+        r = self.r.random()
+        if r < 0.45:
+            return self.src()
+        if r < 0.60:
+            return self.pick(["C1", "C2", "C3", "D0", "D1", "D2", "CI1" + self.type(d), "CI2" + self.type(d)])
+        if r < 0.80:
+            return self.pick(OPNAMES)
+        if r < 0.86:
+            return "cv" + self.type(d)
+        if r < 0.90:
+            return "li" + self.src()
+        if r < 0.94:
+            return "Ut" + self.pick(["", "0", "12"]) + "_"
+        return "Ul" + "".join(self.type(d) for _ in range(self.r.randrange(1, 3))) + "E" + self.pick(["", "0", "3"]) + "_"
+
+    def nested(self, d, in_type=False):
+        parts = [self.pick(["", "", "", "K", "VK", "R", "O", "KO"])]
+        if self.r.random() < 0.15:
+            parts.append(self.pick([self.subst(), "St", self.tparam(), "DT" + self.expr(d - 1) + "E" if d > 0 else "St"]))
+        n = self.r.randrange(1, 4)
+        for i in range(n):
+            comp = self.src() if i < n - 1 or in_type else self.leaf(d - 1)
+            comp += self.abi()
+            # template arguments in the middle of the name: what follows them must still be emitted
+            if d > 0 and self.r.random() < (0.55 if i < n - 1 else 0.3):
+                comp += self.targs(d - 1)
+            if self.r.random() < 0.04:
+                comp = self.pick(["L", "M"]) + comp
+            parts.append(comp)
+        return "N" + "".join(parts) + "E"
+
+    def local(self, d):
+        enc = self.encoding(d - 1, top=False)
+        r = self.r.random()
+        if r < 0.2:
+            tail = "s"
+        elif r < 0.3:
+            tail = "d" + self.pick(["", "0", "1"]) + "_" + self.name(d - 1)
+        else:
+            tail = self.name(d - 1)
+        disc = self.pick(["", "", "_0", "_3", "__12_"])
+        return "Z" + enc + "E" + tail + disc
+
+    def name(self, d, in_type=False):
+        r = self.r.random()
+        if d > 0 and r < 0.5:
+            return self.nested(d, in_type)
+        if d > 0 and r < 0.58 and not in_type:
+            return self.local(d)
+        if r < 0.66:
+            return "St" + self.src() + (self.targs(d - 1) if d > 0 and self.r.random() < 0.4 else "")
+        if r < 0.72:
+            return self.subst() + (self.targs(d - 1) if d > 0 else "")
+        u = self.src() if in_type or self.r.random() < 0.7 else self.pick([self.pick(OPNAMES), "L" + self.src(), "cv" + self.type(d - 1)])
+        return u + self.abi() + (self.targs(d - 1) if d > 0 and self.r.random() < 0.35 else "")
+
+    def special(self, d):
+        r = self.r.random()
+        if r < 0.4:
+            return self.pick(["TV", "TT", "TI", "TS", "TF", "TJ"]) + self.type(d)
+        if r < 0.5:
+            return "Th" + self.number() + "_" + self.encoding(d - 1, top=False)
+        if r < 0.58:
+            return "Tv" + self.number() + "_" + self.number() + "_" + self.encoding(d - 1, top=False)
+        if r < 0.64:
+            return "Tc" + "h" + self.number() + "_" + "v" + self.number() + "_" + self.number() + "_" + self.encoding(d - 1, top=False)
+        if r < 0.72:
+            return "TC" + self.type(d) + self.number() + "_" + self.type(d)
+        if r < 0.80:
+            return self.pick(["TH", "TW", "GV"]) + self.name(d)
+        if r < 0.88:
+            return "GR" + self.name(d) + self.pick(["_", "0_", "A_"])
+        if r < 0.94:
+            return "GA" + self.encoding(d - 1, top=False)
+        return "GT" + self.pick("tn") + self.encoding(d - 1, top=False)
+
+    def encoding(self, d, top=True):
+        if d > 0 and self.r.random() < 0.1:
+            return self.special(d)
+        n = self.name(d)
+        r = self.r.random()
+        if r < 0.15:
+            return n          # a data name
+        ret = self.type(d - 1) if "I" in n and self.r.random() < 0.6 else ""
+        return n + ret + "".join(self.type(d - 1) for _ in range(self.r.randrange(1, 4)))
+
+    def mangled(self):
+        d = self.r.choice([1, 2, 2, 3, 3, 4])
+        s = "_Z" + self.encoding(d)
+        r = self.r.random()
+        if r < 0.05:
+            s += self.pick([".part.0", ".constprop.3", ".isra.1", "@@GLIBCXX_3.4", "@plt"])
+        if r > 0.97:
+            s = "_GLOBAL__sub_I_" + s
+        return s
+
+
+def grammar_names(rng, n, maxlen=400):
+    g = Grammar(rng)
+    out = []
+    while len(out) < n:
+        s = g.mangled()
+        if len(s) <= maxlen:
+            out.append(s.encode())
+    return out
